@@ -84,6 +84,16 @@ def execute(darsia, ctx, key):
             ctx["MGH"] = darsia.MG(depth=1, smoother_iterations=2, maxiter=2, dim=2, mass_coeff=1.0 + rs.rand(16, 12), diffusion_coeff=0.5 + rs.rand(16, 12))
         x0 = _data("m")
         return ctx["MGH"](x0.copy(), rhs=x0 * float(op[1]))
+    if name == "MGU":          # MGU|mass|diff : ONE multigrid object whose coefficients are replaced for every call; "A<seed>" = array, else scalar
+        rs0 = np.random.RandomState(7)
+        M = ctx.setdefault("MGU", darsia.MG(depth=1, smoother_iterations=2, maxiter=2, dim=2, mass_coeff=1.0 + rs0.rand(16, 12), diffusion_coeff=0.5 + rs0.rand(16, 12)))
+
+        def coeff(tok, base):
+            return base + np.random.RandomState(int(tok[1:])).rand(16, 12) if tok.startswith("A") else float(tok)
+
+        M.update_params(dim=2, mass_coeff=coeff(op[1], 1.0), diffusion_coeff=coeff(op[2], 0.5))
+        x0 = _data("m")
+        return M(x0.copy(), rhs=x0 * 2.0)
     if name == "SBTVD":        # SBTVD|img|mu|ell
         return darsia.split_bregman_tvd(_data(op[1]), mu=float(op[2]), ell=float(op[3]), max_num_iter=4, eps=None)
     if name == "TVD":          # TVD|img|weight
@@ -121,6 +131,7 @@ ALPHABET = {
     "jacobi-default-dim": ["H1dim|a|1.0|1.0|2", "H1dim|v|1.0|1.0|3", "H1|a|1.0|1.0|default"],
     "mg-object": ["MG|1.0|1.0", "MG|1.0|0.1"],
     "mg-heterogeneous": ["MGH|2.0", "MGH|3.0"],
+    "mg-coefficients-replaced": ["MGU|A3|A4", "MGU|2.0|0.7", "MGU|2.0|A4", "MGU|A5|0.7"],
     "newton-direct": ["W1|newton|direct|0", "W1|newton|direct|1"],
     "bregman-amg": ["W1|bregman|amg|0", "W1|bregman|amg|1"],
     "bregman-adaptive": ["W1|adaptive|direct|0", "W1|adaptive|direct|1"],
